@@ -3,6 +3,7 @@ package props
 import (
 	"fmt"
 	"go/token"
+	"go/types"
 	"sort"
 	"strings"
 
@@ -163,23 +164,46 @@ func runC01(c *an.Ctx) {
 
 	// (4) consistency checks at open
 	if si := mustFunc(c, ls+".(*StateStore).init"); si != nil {
-		cmp := an.FindValues(si, func(v ssa.Value) bool {
+		// the comparison of the block-merkle tree size with height+1, in either polarity (the height is init's
+		// parameter whatever it is called; the test may sit in a private helper)
+		isMismatchTest := func(v ssa.Value) (an.Abs, ssa.Value, bool) {
 			b, ok := v.(*ssa.BinOp)
-			if !ok || b.Op != token.NEQ {
-				return false
+			if !ok || (b.Op != token.NEQ && b.Op != token.EQL) || len(si.Params) != 2 {
+				return an.AUnknown, nil, false
 			}
-			_, off, _ := linear(b.Y)
-			return off == 1 && an.AccessPath(mustBase(b.Y)) == "currBlockHeight"
-		})
+			size := ssa.Value(nil)
+			for _, side := range [][2]ssa.Value{{b.X, b.Y}, {b.Y, b.X}} {
+				base, off, _ := linear(side[1])
+				if off == 1 && an.AccessPathIn(si, base) == si.Params[1].Name() {
+					size = side[0]
+				}
+			}
+			if size == nil {
+				return an.AUnknown, nil, false
+			}
+			if b.Op == token.NEQ {
+				return an.ATrue, size, true
+			}
+			return an.AFalse, size, true
+		}
+		cmp := an.FindValues(si, func(v ssa.Value) bool { _, _, ok := isMismatchTest(v); return ok })
 		if len(cmp) >= 1 {
-			g := &an.Guard{Name: "treeSize != height+1", FailValue: an.ATrue, MatchValue: func(v ssa.Value) bool { return v == cmp[0] }}
-			pos := an.FindValues(si, func(v ssa.Value) bool {
-				b, ok := v.(*ssa.BinOp)
-				return ok && b.Op == token.GTR && b.Block() == cmp[0].(*ssa.BinOp).Block().Preds[0]
-			})
+			mism, size, _ := isMismatchTest(cmp[0])
+			g := &an.Guard{Name: "treeSize != height+1", FailValue: mism, MatchValue: func(v ssa.Value) bool { return v == cmp[0] }}
+			// an empty (never persisted) tree is accepted: the rule speaks about a non-empty one
 			extra := map[ssa.Value]an.Abs{}
-			for _, p := range pos {
-				extra[p] = an.ATrue
+			for _, v := range an.FindValues(si, func(v ssa.Value) bool { _, isB := v.(*ssa.BinOp); return isB }) {
+				b := v.(*ssa.BinOp)
+				isZero := func(x ssa.Value) bool {
+					k, isK := x.(*ssa.Const)
+					return isK && k.Value != nil && k.Value.String() == "0"
+				}
+				switch {
+				case b.X == size && isZero(b.Y) && (b.Op == token.GTR || b.Op == token.NEQ), b.Y == size && isZero(b.X) && (b.Op == token.LSS || b.Op == token.NEQ):
+					extra[b] = an.ATrue
+				case (b.X == size && isZero(b.Y) || b.Y == size && isZero(b.X)) && b.Op == token.EQL:
+					extra[b] = an.AFalse
+				}
 			}
 			bad := ""
 			an.RunAllFail(si, []*an.Guard{g}, extra, false, func(r *an.Result) {
@@ -197,18 +221,65 @@ func runC01(c *an.Ctx) {
 		}
 	}
 	if nf := mustFunc(c, "merkle.NewFileHashStore"); nf != nil {
-		sequenceOnSuccess(c, "sequence", "the hash file is checked against the committed tree size and positioned at the committed size before use (a torn tail after a crash is overwritten, not appended after)", nf, []seqStep{
-			step(c, "checkConsistence", "merkle.(*fileHashStore).checkConsistence"),
+		seqRule := "the hash file is checked against the committed tree size and positioned at the committed size before use (a torn tail after a crash is overwritten, not appended after)"
+		// the consistency check, wherever it is written (in NewFileHashStore itself or in a private helper of it): the
+		// file's size is compared with a quantity computed from the committed tree size, and the store is not handed
+		// out on the "file is shorter" outcome
+		var short []*an.Guard
+		var shortBounds []ssa.Value
+		for _, g := range an.InlineReach(nf) {
+			for _, v := range an.FindValues(g, func(v ssa.Value) bool { _, isB := v.(*ssa.BinOp); return isB }) {
+				b := v.(*ssa.BinOp)
+				var fail an.Abs
+				bound := b.Y
+				if fromFileSize(b.Y) {
+					bound = b.X
+				}
+				switch {
+				case b.Op == token.LSS && fromFileSize(b.X) && dependsOnParamVia(nf, b.Y, nf.Params[1], 0),
+					b.Op == token.GTR && fromFileSize(b.Y) && dependsOnParamVia(nf, b.X, nf.Params[1], 0):
+					fail = an.ATrue
+				case b.Op == token.GEQ && fromFileSize(b.X) && dependsOnParamVia(nf, b.Y, nf.Params[1], 0),
+					b.Op == token.LEQ && fromFileSize(b.Y) && dependsOnParamVia(nf, b.X, nf.Params[1], 0):
+					fail = an.AFalse
+				default:
+					continue
+				}
+				shortBounds = append(shortBounds, bound)
+				bb := b
+				short = append(short, &an.Guard{Name: "file size < committed hashes", FailValue: fail, MatchValue: func(x ssa.Value) bool { return x == ssa.Value(bb) }})
+			}
+		}
+		if len(short) == 0 {
+			c.Violate("guard|merkle.NewFileHashStore|file-not-shorter-than-committed", seqRule, c.P.Rel(nf.Pos()), "no comparison of the file's size (Stat().Size()) with the size computed from the committed tree size")
+		} else {
+			v := an.GuardedReturns(c.P, nf, short, an.SuccessSpecFor(nf.Signature), false)
+			c.Check(v.Holds && v.ActionSites >= 1, "guard|merkle.NewFileHashStore|file-not-shorter-than-committed", seqRule, c.P.Rel(nf.Pos()), "a store is returned although the file holds fewer hashes than the committed tree: "+v.Witness)
+		}
+		sequenceOnSuccess(c, "sequence", seqRule, nf, []seqStep{
 			step(c, "file.Seek", "os.(*File).Seek"),
 		}, true)
 		okArg := false
-		for _, k := range an.CallsTo(nf, mustObj(c, "os.(*File).Seek")) {
+		seekKey := ""
+		for _, k := range an.CallsToReach(nf, mustObj(c, "os.(*File).Seek")) {
 			args := argsNoRecv(k.Common())
-			if w, isC := args[1].(*ssa.Const); isC && w.Value != nil && w.Value.String() == "0" && dependsOnParam(args[0], nf.Params[1], 0) {
+			if w, isC := args[1].(*ssa.Const); isC && w.Value != nil && w.Value.String() == "0" && dependsOnParamVia(nf, args[0], nf.Params[1], 0) {
 				okArg = true
+				seekKey = exprKey(nf, args[0], 0)
 			}
 		}
 		c.Check(okArg, "same-subject|NewFileHashStore|seek-to-committed-size", "the seek offset is computed from the committed tree size, from the start of the file", c.P.Rel(nf.Pos()), "Seek offset does not depend on tree_size or is not SeekStart")
+		// what the file's size is checked against is the very offset the file is then positioned at
+		if okArg && len(shortBounds) > 0 {
+			same := true
+			for _, b := range shortBounds {
+				if exprKey(nf, b, 0) != seekKey {
+					same = false
+				}
+			}
+			c.Check(same, "same-subject|NewFileHashStore|checked-size-is-seek-offset", "the size the hash file must at least have is the offset writing resumes at (both computed the same way from the committed tree size)", c.P.Rel(nf.Pos()),
+				"file size compared with "+exprKey(nf, shortBounds[0], 0)+" but positioned at "+seekKey)
+		}
 	}
 	// (5) who appends the hash file
 	if ap := mustFunc(c, "merkle.(*fileHashStore).Append"); ap != nil {
@@ -241,6 +312,53 @@ func dependsOnParam(v ssa.Value, p *ssa.Parameter, depth int) bool {
 				return true
 			}
 		}
+	}
+	return false
+}
+
+// dependsOnParamVia is dependsOnParam for a value that may live in a private helper of root: a helper's parameter
+// stands for the argument it was given.
+func dependsOnParamVia(root *ssa.Function, v ssa.Value, p *ssa.Parameter, depth int) bool {
+	if v == ssa.Value(p) {
+		return true
+	}
+	if depth > 10 {
+		return false
+	}
+	if q, isP := v.(*ssa.Parameter); isP {
+		if a := an.ResolveActual(root, q); a != ssa.Value(q) {
+			return dependsOnParamVia(root, a, p, depth+1)
+		}
+		return false
+	}
+	if in, ok := v.(ssa.Instruction); ok {
+		for _, op := range in.Operands(nil) {
+			if *op != nil && dependsOnParamVia(root, *op, p, depth+1) {
+				return true
+			}
+		}
+	}
+	return false
+}
+
+// fromFileSize: v is (a conversion of) the result of Size() on a file's FileInfo.
+func fromFileSize(v ssa.Value) bool {
+	for i := 0; i < 4; i++ {
+		switch x := v.(type) {
+		case *ssa.Convert:
+			v = x.X
+			continue
+		case *ssa.ChangeType:
+			v = x.X
+			continue
+		case *ssa.Call:
+			if x.Call.Method != nil && x.Call.Method.Name() == "Size" {
+				if nm, isN := types.Unalias(x.Call.Value.Type()).(*types.Named); isN && nm.Obj().Pkg() != nil && (nm.Obj().Pkg().Path() == "io/fs" || nm.Obj().Pkg().Path() == "os") {
+					return true
+				}
+			}
+		}
+		return false
 	}
 	return false
 }
@@ -301,13 +419,23 @@ func replayRange(c *an.Ctx, fn *ssa.Function) {
 	}
 	cb, coff, _ := linear(cond.X)
 	bb, boff, _ := linear(cond.Y)
+	op := cond.Op
+	if cb != phi && bb == ssa.Value(phi) {
+		// bound (op) i: mirror
+		cb, coff, bb, boff = bb, boff, cb, coff
+		op = map[token.Token]token.Token{token.LSS: token.GTR, token.GTR: token.LSS, token.LEQ: token.GEQ, token.GEQ: token.LEQ}[op]
+	}
 	if cb != phi {
 		c.Undecide(key, rule, c.P.Rel(calls[0].Pos()), "loop condition does not test the induction variable")
 		return
 	}
+	// the condition may be the exit test (`if i > last { break }`): the iteration continues on its false edge
+	if body := calls[0].Block(); body.Parent() == hdr.Parent() && !hdr.Succs[0].Dominates(body) && hdr.Succs[1].Dominates(body) {
+		op = map[token.Token]token.Token{token.LSS: token.GEQ, token.GEQ: token.LSS, token.LEQ: token.GTR, token.GTR: token.LEQ}[op]
+	}
 	// last i satisfies i+coff (op) bound+boff
 	var lastRel int64 // last replayed height = bound + lastRel
-	switch cond.Op {
+	switch op {
 	case token.LSS:
 		lastRel = boff - coff - 1 + off
 	case token.LEQ:
